@@ -26,6 +26,22 @@ int g_n; /* ghost: half size of the centred in-plane index range */
                     || ((c->x == __CPROVER_old(c->y) || c->x == -__CPROVER_old(c->y)) && (c->y == __CPROVER_old(c->x) || c->y == -__CPROVER_old(c->x)))) \
   __CPROVER_ensures(c->z == __CPROVER_old(c->z) + op->z_shift || c->z == op->q - __CPROVER_old(c->z) + op->z_shift)
 #endif
+/* ---- the bundle of tangential rays traced for one bin (ProjMatrixByBinUsingRayTracing, num_tangential_LORs > 1) ----
+   The rays are at first, first + s_inc, ..., first + (n-1) s_inc. From the property ("the same whether it is computed
+   directly or derived from a symmetry-related row, for every combination of enabled symmetries"): the row of the bin at -s is
+   derived from the row at +s by mirroring; that is the directly computed row only if the bundle is CENTRED on the bin:
+   first = s_in_mm - (n-1) s_inc / 2 (then the mirrored bundle is the bundle of the mirrored bin). Float statement: centred
+   up to the rounding of the statement's own operations (tolerance 2^-10 s_inc + 2^-9 mm for |s| <= 4096 mm,
+   2^-7 <= s_inc <= 64 mm); a bundle shifted by half a ray spacing - the integer-division slip - is far outside.
+   Parametric in the number of rays (job constant). */
+#ifndef C03_NRAYS
+#define C03_NRAYS 2
+#endif
+#define CONTRACT_K_rt_first_ray                                                                                       \
+  __CPROVER_requires(num_tangential_LORs == C03_NRAYS && s_in_mm >= -4096.F && s_in_mm <= 4096.F && s_inc >= 0.0078125F && s_inc <= 64.F) \
+  __CPROVER_assigns()                                                                                                  \
+  __CPROVER_ensures(s_in_mm - __CPROVER_return_value >= s_inc * ((C03_NRAYS - 1) * 0.5F) - (s_inc * 0.0009765625F + 0.001953125F)) \
+  __CPROVER_ensures(s_in_mm - __CPROVER_return_value <= s_inc * ((C03_NRAYS - 1) * 0.5F) + (s_inc * 0.0009765625F + 0.001953125F))
 #ifdef LEMMA_CANARY
 #define LEMMA_IMG_CANARY __CPROVER_assert(0, "vacuity canary")
 #else
